@@ -1,6 +1,6 @@
 """Rule building blocks shared by the property modules (K2..K5 helpers)."""
 import re
-from core import (walk, calls, peel, callee_matches, callee_names, trace_is_call, trace_is_field,
+from core import (walk, calls, peel, callee_matches, callee_names, trace_is_call, trace_is_field, var_name,
                   is_tracing, op_place, place_fields, find_matches, select_arms, V, T, ANY, YES, NO, MAYBE)
 
 
@@ -840,3 +840,81 @@ def calls_grouped_edges(cfg, fn, want):
             if is_true == val:
                 out.setdefault(tr["block"], []).append(e)
     return out
+
+
+class FlagFlow:
+    """Where does a boolean local get its value from?  Follows, inside one (closure- and helper-spliced) THIR tree:
+       `let v = e`; `let (a, b) = helper(..)` against the tuple the spliced helper returns; `let v = match .. { arms }` / `if` values;
+       assignments `v = true` together with the conditions that guard them.  Names are resolved per tree, not assumed."""
+
+    def __init__(self, th):
+        self.lets = {}
+        self.assign_true = {}       # var -> [list of guarding conditions]
+        self._scan(th, [])
+
+    def _tuple_elems(self, init):
+        """element expressions of the tuple a spliced helper call evaluates to"""
+        for c in walk(init):
+            if c.get("k") == "call" and isinstance(c.get("inl"), dict):
+                res = result_expr(user_block(c["inl"]["body"]))
+                for t in walk(res):
+                    if t.get("k") == "tuple":
+                        return t.get("es") or []
+        p = peel(init)
+        if isinstance(p, dict) and p.get("k") == "tuple":
+            return p.get("es") or []
+        return None
+
+    def _scan(self, n, conds):
+        if isinstance(n, list):
+            for x in n:
+                self._scan(x, conds)
+            return
+        if not isinstance(n, dict):
+            return
+        k = n.get("k")
+        if k == "let" and n.get("init") is not None:
+            pat = n.get("pat") or {}
+            if pat.get("k") == "bind":
+                self.lets.setdefault(pat.get("n"), []).append(n["init"])
+            elif pat.get("k") in ("leaf", "tuple") and pat.get("sub"):
+                elems = self._tuple_elems(n["init"])
+                for idx, _name, sp in pat["sub"]:
+                    if isinstance(sp, dict) and sp.get("k") == "bind" and elems and idx < len(elems):
+                        self.lets.setdefault(sp["n"], []).append(elems[idx])
+        if k == "assign":
+            v = var_name(peel(n["l"]))
+            r = peel(n["r"])
+            if v and isinstance(r, dict) and r.get("k") == "lit" and "true" in str(r.get("v")):
+                self.assign_true.setdefault(v, []).append(list(conds))
+        if k == "if":
+            self._scan(n["cond"], conds)
+            self._scan(n["then"], conds + [n["cond"]])
+            self._scan(n.get("else"), conds)
+            return
+        for key, v in n.items():
+            if isinstance(v, (dict, list)) and key != "pat":
+                self._scan(v, conds)
+
+    def depends_on_call(self, expr, fn, depth=5, seen=None):
+        """does the value of expr (a condition, a flag) derive from a call to fn?"""
+        seen = seen or set()
+        if has_call(expr, fn):
+            return True
+        if depth == 0:
+            return False
+        for v in expr_vars_(expr):
+            if v in seen:
+                continue
+            seen = seen | {v}
+            for init in self.lets.get(v, []):
+                if self.depends_on_call(init, fn, depth - 1, seen):
+                    return True
+            for conds in self.assign_true.get(v, []):
+                if any(self.depends_on_call(c, fn, depth - 1, seen) for c in conds):
+                    return True
+        return False
+
+
+def expr_vars_(n):
+    return {x["n"] for x in walk(n) if x.get("k") == "var"}
